@@ -1,4 +1,5 @@
 import DmlcModel.Parse.ConvStrToNum
+import DmlcModel.Parse.ParserNext
 import Driver.Proto
 /-! line-protocol driver of the Parse model (C11, C12); ops documented in harness/h_parsers.cc -/
 namespace Driver.Parse
@@ -110,6 +111,12 @@ def opPipe (f : Format) (conv : Conv) (nthread : Nat) (chunks : List (Bytes × N
   | .error e => showErr e
   | .ok bs => showBlocks bs
 
+/-- `pipe` through `ThreadedParser`: every block with the ownership observation made when `Next` returned -/
+def opTPipe (f : Format) (conv : Conv) (nthread : Nat) (chunks : List (Bytes × Nat)) : String :=
+  match DmlcModel.Parse.PNext.pipelineThreaded f fx conv nthread chunks with
+  | .error e => showErr e
+  | .ok bs => "blocks " ++ String.join (bs.map fun b => "[" ++ showRows b.1 ++ "]@" ++ (if b.2 then "1" else "0"))
+
 def step (s : St) : List String → St × String
   | ["line", h] =>
     match bytesOfHex h with
@@ -134,6 +141,10 @@ def step (s : St) : List String → St × String
   | ["pipe", f, nt, _nparts, _bufwords, chunks] =>
     match parseFmt f, nt.toNat?, parseChunks chunks with
     | some (f, conv), some nt, some cs => (s, opPipe f conv nt cs)
+    | _, _, _ => (s, "bad-op")
+  | ["tpipe", f, nt, _nparts, _bufwords, chunks] =>
+    match parseFmt f, nt.toNat?, parseChunks chunks with
+    | some (f, conv), some nt, some cs => (s, opTPipe f conv nt cs)
     | _, _, _ => (s, "bad-op")
   | _ => (s, "bad-op")
 
